@@ -360,7 +360,13 @@ class URL:
     def __repr__(self) -> str:
         url = str(self)
         if self.password:
-            url = str(self.replace(password="********"))
+            # mask in place: rebuilding the URL through replace() re-parses it,
+            # which fails for some oddly shaped (but accepted) network locations
+            userinfo, _, hostinfo = self.netloc.rpartition("@")
+            username = userinfo.partition(":")[0]
+            url = self.components._replace(
+                netloc=f"{username}:********@{hostinfo}"
+            ).geturl()
         return f"{self.__class__.__name__}({repr(url)})"
 
 
